@@ -8,7 +8,7 @@ operations suspend, every interleaving for small programs (DFS by re-execution),
 
 from __future__ import annotations
 
-from .. import env, gen, rig
+from .. import env, gen, rig, tconc
 from ..models import BreakerModel
 from ..view import View
 from . import common
@@ -542,6 +542,8 @@ def work(ctx, tier):
                 stop = ctx.viol(bad[0], f"[interleaver {prog['id']}] {bad[1]}", {"program": prog, "prefix": [c for _, c in choices]})
                 if stop:
                     break
+    # whole sync calls in threads right after the recovery timeout (the statement's "exactly one probe" does not depend on who calls)
+    tconc.thread_slice(ctx, tier, common.rng_for(ctx, "threads"), ["probe"], budget=False, breaker=True)
 
 
 def conclude(ctx):
@@ -557,12 +559,13 @@ def conclude(ctx):
         "concurrent_rejections": (ctx.cnt["concurrent_rejections"], 200),
         "programs_exhausted": (ctx.cnt["programs_exhausted"], 5),
     }
+    floors.update(tconc.floors(ctx))
     return dict(
         rule=(
             "policy-level histories: 4-10 calls per policy object over the 6 breaker-carrying entry points with gaps from {0, step, recovery-step, recovery, recovery+step, window-step, window, "
             "window+step, ...}; every spy event is fed to the shadow model; concurrent part: programs of 2-4 async calls (call/execute, with/without retry, operations with 1-2 suspension "
             "points, started around the timeout boundary), all interleavings by DFS re-execution for k<=3 (bounded), seeded random for k=4; distinct_nontrivial = distinct interleavings "
-            "(choice sequences) + distinct abstract model states reached by histories"
+            "(choice sequences) + distinct abstract model states reached by histories" + tconc.RULE
         ),
         evaluations=ctx.cnt["calls"] + ctx.cnt["interleavings"],
         nontrivial=len(ctx.sets["schedules"]) + len(ctx.sets["states"]),
@@ -574,6 +577,8 @@ def conclude(ctx):
 
 
 def replay(data):
+    if "tspec" in data["payload"]:
+        return tconc.replay(data["payload"])
     p = data["payload"]
     if "program" in p:
         run, choices = run_interleaving(p["program"], p["prefix"])
